@@ -238,32 +238,53 @@ ExecInclude ==
 Cond(x, c) == CASE c.ck = "const" -> c.v
                 [] c.ck = "even" -> LoopOf(x).i % 2 = 0
                 [] c.ck = "first" -> LoopOf(x).i = 0
+(* The expression of a control line is evaluated BEFORE the construct is entered: the iterable of `% for`
+   (loop = __M_loop._enter(<iterable>): the argument is evaluated first, so an exception there leaves the
+   LoopStack untouched), the conditions of % if / % elif (in order, until one holds) and % while (before every
+   iteration), the context expression of % with.  A mark inside such an expression (field im / cm, None if
+   absent) runs in a "ceval" frame that pushes nothing; when it completes, AfterEval enters the construct. *)
+PopCtl(x) == [x EXCEPT !.ctl = PopS(@)]
+Ceval(x, mk, s, arm) == PushF(x, Frame("ceval", <<mk>>, TopOf(x)) @@ [st |-> s, arm |-> arm])
+RECURSIVE IfFrom(_, _, _)
+IfFrom(x, s, i) ==
+  IF i > Len(s.arms) THEN PushF(x, Frame("plain", s.els, TopOf(x)))
+  ELSE IF ~IsNone(s.arms[i].c.cm) THEN Ceval(x, s.arms[i].c.cm, s, i)
+  ELSE IF Cond(x, s.arms[i].c) THEN PushF(x, Frame("plain", s.arms[i].a, TopOf(x)))
+  ELSE IfFrom(x, s, i + 1)
+EnterFor(x, s) ==      \* the iterable has been evaluated: push the loop context, then iterate (or the else clause)
+  LET par == TopOf(x)
+      x1 == [x EXCEPT !.ls[par.lix] = Append(@, [i |-> 0, n |-> IF s.sized THEN s.n ELSE 0 - 1])]
+  IN IF s.n > 0 THEN PushF(x1, Frame("for", s.a, par) @@ [n |-> s.n, i |-> 0, els |-> s.els])
+     ELSE PushF(x1, Frame("fels", s.els, par))
+EnterWith(x, s) == PushF(Lit(x, <<s.t1>>), Frame("with", s.a, TopOf(x)) @@ [t2 |-> s.t2])
+WhileTest(x) ==        \* the condition has been evaluated; the while frame is on top
+  LET f == TopOf(x) IN
+  IF f.i < f.n THEN [x EXCEPT !.ctl[Len(x.ctl)] = [f EXCEPT !.pc = 1, !.i = @ + 1]] ELSE PopCtl(x)
+AfterEval(x, s, arm) ==
+  CASE s.k = "for" -> EnterFor(x, s)
+    [] s.k = "with" -> EnterWith(x, s)
+    [] s.k = "while" -> WhileTest(x)
+    [] s.k = "if" -> IF Cond(x, s.arms[arm].c) THEN PushF(x, Frame("plain", s.arms[arm].a, TopOf(x)))
+                     ELSE IfFrom(x, s, arm + 1)
 ExecIf ==
   /\ Running /\ Stmt.k = "if"
-  /\ LET s == Stmt
-         hit == {i \in 1..Len(s.arms) : Cond(m, s.arms[i].c)}
-         suite == IF hit = {} THEN s.els ELSE s.arms[CHOOSE i \in hit : \A j \in hit : i <= j].a
-     IN Step(PushF(Adv(m), Frame("plain", suite, Top)))
+  /\ Step(IfFrom(Adv(m), Stmt, 1))
 ExecFor ==
   /\ Running /\ Stmt.k = "for"
-  /\ LET s == Stmt
-         x1 == [Adv(m) EXCEPT !.ls[Top.lix] = Append(@, [i |-> 0, n |-> IF s.sized THEN s.n ELSE 0 - 1])]
-     IN Step(IF s.n > 0 THEN PushF(x1, Frame("for", s.a, Top) @@ [n |-> s.n, i |-> 0, els |-> s.els])
-             ELSE PushF(x1, Frame("fels", s.els, Top)))
-ExecWhile ==
+  /\ Step(IF IsNone(Stmt.im) THEN EnterFor(Adv(m), Stmt) ELSE Ceval(Adv(m), Stmt.im, Stmt, 0))
+ExecWhile ==           \* the frame starts "at its end": running off the end is where the condition is tested
   /\ Running /\ Stmt.k = "while"
-  /\ Step(IF Stmt.n > 0 THEN PushF(Adv(m), Frame("while", Stmt.a, Top) @@ [n |-> Stmt.n, i |-> 0]) ELSE Adv(m))
+  /\ Step(PushF(Adv(m), [Frame("while", Stmt.a, Top) EXCEPT !.pc = Len(Stmt.a) + 1] @@ [n |-> Stmt.n, i |-> 0, cm |-> Stmt.cm]))
 ExecTry ==
   /\ Running /\ Stmt.k = "try"
   /\ Step(PushF(Adv(m), Frame("try", Stmt.a, Top) @@ [h |-> Stmt.h]))
 ExecWith ==
   /\ Running /\ Stmt.k = "with"
-  /\ Step(PushF(Lit(Adv(m), <<Stmt.t1>>), Frame("with", Stmt.a, Top) @@ [t2 |-> Stmt.t2]))
+  /\ Step(IF IsNone(Stmt.cm) THEN EnterWith(Adv(m), Stmt) ELSE Ceval(Adv(m), Stmt.cm, Stmt, 0))
 
 (* ------------------------------------------------------------------ a frame runs off its end     *)
 PopLoop(x, f) == [x EXCEPT !.ls[f.lix] = PopS(@)]
 BumpLoop(x, f) == [x EXCEPT !.ls[f.lix][Len(x.ls[f.lix])].i = @ + 1]
-PopCtl(x) == [x EXCEPT !.ctl = PopS(@)]
 NextIter(x, f) ==   \* the loop frame re-enters its body, or is exhausted (for: else clause with `loop` still pushed)
   IF f.i + 1 < f.n
   THEN IF f.kind = "for"
@@ -287,7 +308,9 @@ ExitFrame ==
             [] f.kind = "expr" -> WriteRecs(PopCtl(m), f.acc)
             [] f.kind = "callc" -> WriteRecs([PopCtl(m) EXCEPT !.nc = None], f.acc)
             [] f.kind = "cap" -> Give([PopCtl(m) EXCEPT !.bufs = PopS(@)], "acc", LastS(m.bufs))
-            [] f.kind \in {"for", "while"} -> NextIter(m, f)
+            [] f.kind = "for" -> NextIter(m, f)
+            [] f.kind = "while" -> IF IsNone(f.cm) THEN WhileTest(m) ELSE Ceval(m, f.cm, [k |-> "while"], 0)
+            [] f.kind = "ceval" -> AfterEval(PopCtl(m), f.st, f.arm)
             [] f.kind = "fels" -> PopLoop(PopCtl(m), f)
             [] f.kind = "with" -> Lit(PopCtl(m), <<f.t2>>)
             [] OTHER -> PopCtl(m))                      \* plain, try, hnd, body
